@@ -249,6 +249,51 @@ func propC10(w *World, r *Report) {
 	RunControl(r, "worklist", "ctlClosure).close", func(cw *World, cr *Report, cf []*ssa.Function) { checkWorklist(cw, cr, nil, cf) })
 	r.Floor("worklist", 15)
 	r.Floor("gidsort", 12)
+	checkNewGidOk(w, r, fns)
+}
+
+// checkNewGidOk: the old->new glyph map of the subsetter has no entry for a
+// glyph that is not part of the subset; a plain lookup then yields 0, the
+// .notdef glyph, and a substitution or ligature silently points there.  Every
+// read of a map[glyph.ID]glyph.ID in the subsetting functions therefore uses
+// the two-value form and looks at the flag.
+func checkNewGidOk(w *World, r *Report, fns []*ssa.Function) {
+	r.Rule("newgidok: every lookup of the old->new glyph map (a map from glyph id to glyph id) in the subsetting functions is the two-value form whose flag is used: a glyph that is not in the subset must not be mistaken for new id 0 (.notdef)")
+	n := 0
+	for _, fn := range fns {
+		all := append([]*ssa.Function{fn}, fn.AnonFuncs...)
+		for _, f := range all {
+			for _, b := range f.Blocks {
+				for _, in := range b.Instrs {
+					lk, ok := in.(*ssa.Lookup)
+					if !ok {
+						continue
+					}
+					mt, ok := lk.X.Type().Underlying().(*types.Map)
+					if !ok || !strings.HasSuffix(mt.Key().String(), "glyph.ID") || !strings.HasSuffix(mt.Elem().String(), "glyph.ID") {
+						continue
+					}
+					n++
+					key := r.MkKey("newgidok", fnName(f), "lookup of the old->new map")
+					flagUsed := false
+					if lk.CommaOk && lk.Referrers() != nil {
+						for _, ref := range *lk.Referrers() {
+							if ex, ok := ref.(*ssa.Extract); ok && ex.Index == 1 && ex.Referrers() != nil && len(*ex.Referrers()) > 0 {
+								flagUsed = true
+							}
+						}
+					}
+					if flagUsed {
+						r.OK("newgidok", key, w.Pos(lk.Pos()), "two-value lookup, flag used")
+					} else {
+						r.Fail("newgidok", key, w.Pos(lk.Pos()), "the old->new glyph map is read without looking at the presence flag: for a glyph that is not part of the subset the result is 0, and the rebuilt rule points at .notdef instead of pulling the glyph into the subset (getNewGid) or being dropped", nil)
+					}
+				}
+			}
+		}
+	}
+	r.Floor("newgidok", 10)
+	_ = n
 }
 
 func checkGidSorts(w *World, r *Report, fn *ssa.Function) {
